@@ -525,6 +525,7 @@ type c15Hist struct {
 	now      int64
 	enumSync bool
 	faults   int
+	stalled  bool
 }
 
 func (h *c15Hist) record(op, out string) {
@@ -677,8 +678,16 @@ func (h *c15Hist) syncOnce(k int) (fired bool) {
 	before := e.snapC()
 	prim := e.snapP()
 	verifFault.arm(k)
+	t0 := time.Now()
 	err := copyDBIntoSQLite(e.st.db, e.st.cacheDB, "sqlite")
 	count, fired, kinds := verifFault.disarm()
+	if time.Since(t0) > 2*time.Second {
+		// SQLite's busy timeout: a statement of the copy waited for the copy's own transaction
+		h.stalled = true
+		e.res.hit(verifHit{Key: "C15:sync:blocked", Oracle: "every destination statement of the copy runs inside its transaction",
+			What: fmt.Sprintf("copyDBIntoSQLite took %v (error: %v): a statement issued outside the destination transaction waited for the lock the transaction holds", time.Since(t0), err),
+			Case: map[string]interface{}{"history": h.human, "fault_at": k}})
+	}
 	after := e.snapC()
 	primAfter := e.snapP()
 	op := "(Sync None)"
@@ -730,7 +739,7 @@ func (h *c15Hist) sync() {
 	}
 	if h.enumSync {
 		for k := 0; ; k++ {
-			if !h.syncOnce(k) {
+			if !h.syncOnce(k) || h.stalled {
 				return
 			}
 		}
@@ -1116,8 +1125,14 @@ func TestVerif_C15(t *testing.T) {
 		c15AlignSecond()
 		h.cleanup()
 	})
-	for i := 0; i < nHist; i++ {
+	stalledRuns := 0
+	for i := 0; i < nHist && stalledRuns < 3; i++ {
 		runHistory(i, func(h *c15Hist) {
+			defer func() {
+				if h.stalled {
+					stalledRuns++
+				}
+			}()
 			n := 3 + rng.Intn(7)
 			for j := 0; j < n; j++ {
 				h.randomOp()
